@@ -142,7 +142,7 @@ func (e *env) overlapPhase(si int, label string) {
 // overlapUDP: many sockets, datagrams written back to back in one tight loop
 // (client A's datagram is followed at once by client B's), many in flight.
 func (e *env) overlapUDP(b *tbench.Bench, si int, label string) {
-	rounds := e.r.N(14, 80)
+	rounds := e.r.N(30, 150)
 	const clients, perClient = 12, 6
 
 	for round := 0; round < rounds; round++ {
@@ -228,8 +228,8 @@ func (e *env) overlapStream(b *tbench.Bench, si int, label string, tls bool) {
 		path = "dot"
 	}
 
-	rounds := e.r.N(5, 40)
-	const conns, perConn = 4, 8
+	rounds := e.r.N(24, 120)
+	const conns, perConn = 4, 12
 
 	for round := 0; round < rounds; round++ {
 		wg := &sync.WaitGroup{}
@@ -298,8 +298,8 @@ func (e *env) overlapStream(b *tbench.Bench, si int, label string, tls bool) {
 
 // overlapDoQ: concurrent streams on several connections.
 func (e *env) overlapDoQ(b *tbench.Bench, si int, label string) {
-	rounds := e.r.N(5, 40)
-	const conns, perConn = 3, 8
+	rounds := e.r.N(12, 80)
+	const conns, perConn = 4, 16
 
 	for round := 0; round < rounds; round++ {
 		wg := &sync.WaitGroup{}
@@ -355,7 +355,7 @@ func (e *env) overlapDoH(b *tbench.Bench, si int, label string) {
 	}
 	defer hc.Close()
 
-	rounds := e.r.N(5, 40)
+	rounds := e.r.N(10, 60)
 	const perRound = 24
 
 	for round := 0; round < rounds; round++ {
